@@ -11,6 +11,7 @@ package fw
 // provided the functions called are pure in their arguments (assumption stated by the rules).
 
 import (
+	"reflect"
 	"fmt"
 	"go/constant"
 	"go/token"
@@ -473,6 +474,9 @@ func (e *TermEnv) lenOf(seq ssa.Value) *Poly {
 
 // Term renders v.
 func (e *TermEnv) Term(v ssa.Value) string {
+	if v == nil || (reflect.ValueOf(v).Kind() == reflect.Ptr && reflect.ValueOf(v).IsNil()) {
+		return "?none" // e.g. the value of a defer/go call instruction
+	}
 	if s, ok := e.subst[v]; ok {
 		return s
 	}
